@@ -141,7 +141,9 @@ def execute(sc):
         if before <= noise_len <= seen["pos"] and seen["junction"] is None and seen["pos"] == noise_len:
             seen["junction"] = reader_rig.reader_state(rd)
 
-    fed = reader_rig.feed(reader, wire, sc["cuts"], probe)
+    # An exception out of read() is C14's violation, but the line keeps delivering afterwards (an event loop
+    # logs it and goes on), so the loss it causes is judged here like any other loss.
+    fed = reader_rig.feed(reader, wire, sc["cuts"], probe, keep_going=True)
     viol = []
     tag = kind if kind == "p1" else f"hdlc cfg={'S' if cfg[0] else 's'}{'A' if cfg[1] else 'a'}"
 
@@ -156,7 +158,7 @@ def execute(sc):
         required = [o for pos, o in sent if FLAG not in o and not (cfg[1] and o.endswith(bytes([ESC]))) and pos > noise_len + 2047 + longest]
     else:
         required = [o for _, o in sent[1:]]
-    void = fed.error is not None
+    void = False
     got_valid = []
     all_bytes = []
     if not void:
@@ -181,7 +183,8 @@ def execute(sc):
         if missing is not None:
             r = required[missing]
             where = "never-returned" if r not in all_bytes else ("returned-invalid" if r not in got_valid else "out-of-order")
-            add("L", f"promised-message-{where} noise={sc['noise_kind']}", f"promised clean message #{missing} of {len(required)} ({len(r)} octets) {where}; {len(got_valid)} valid of {len(all_bytes)} returned; noise {noise_len} octets")
+            exc = f"; read() raised {fed.errors} time(s), first {fed.error[1]!r}" if fed.errors else ""
+            add("L", f"promised-message-{where} noise={sc['noise_kind']}{' after-exception' if fed.errors else ''}", f"promised clean message #{missing} of {len(required)} ({len(r)} octets) {where}; {len(got_valid)} valid of {len(all_bytes)} returned; noise {noise_len} octets{exc}")
         else:
             for r in required:
                 if got_valid.count(r) != 1:
